@@ -33,6 +33,7 @@ struct Conn {
     log: Vec<Msg>,
     close: bool,
     fail_next: bool,
+    fail_code: usize,
     notify: Arc<Notify>,
     server_closed: bool,
     statements: BTreeMap<String, (String, Vec<u32>)>,
@@ -73,9 +74,15 @@ fn ready(buf: &mut Vec<u8>) {
     put_msg(buf, b'Z', b"I");
 }
 
-fn error_response(buf: &mut Vec<u8>) {
+/// (severity, SQLSTATE) of a scripted failure: an internal error, "feature not
+/// supported" (what a server or pooler that lacks a statement of the check
+/// answers), and a FATAL administrator shutdown notice
+const FAIL_CODES: [(&str, &str); 3] = [("ERROR", "XX000"), ("ERROR", "0A000"), ("FATAL", "57P01")];
+
+fn error_response(buf: &mut Vec<u8>, code: usize) {
+    let (sev, state) = FAIL_CODES[code % FAIL_CODES.len()];
     let mut b = Vec::new();
-    b.extend_from_slice(b"SERROR\0VERROR\0CXX000\0Mscripted failure\0\0");
+    b.extend_from_slice(format!("S{}\0V{}\0C{}\0Mscripted failure\0\0", sev, sev, state).as_bytes());
     put_msg(buf, b'E', &b);
 }
 
@@ -170,7 +177,8 @@ async fn server(mut io: DuplexStream, id: usize, notify: Arc<Notify>) {
                         std::mem::replace(&mut w.conns[id].fail_next, false)
                     });
                     if fail {
-                        error_response(&mut out);
+                        let code = w(|w| w.conns[id].fail_code);
+                        error_response(&mut out, code);
                     } else if q.trim().is_empty() {
                         put_msg(&mut out, b'I', b"");
                     } else {
@@ -199,7 +207,8 @@ async fn server(mut io: DuplexStream, id: usize, notify: Arc<Notify>) {
                     f
                 });
                 if fail {
-                    error_response(&mut out);
+                    let code = w(|w| w.conns[id].fail_code);
+                    error_response(&mut out, code);
                     // skip to Sync: the client pipelines Describe + Sync; answer them below
                     w(|w| w.conns[id].statements.remove(&name));
                     // mark failure state so Describe is ignored until Sync
@@ -263,7 +272,7 @@ impl Connect for FakeConnect {
             let (client_io, server_io) = tokio::io::duplex(1 << 16);
             let notify = Arc::new(Notify::new());
             let id = w(|w| {
-                w.conns.push(Conn { log: Vec::new(), close: false, fail_next: false, notify: notify.clone(), server_closed: false, statements: BTreeMap::new() });
+                w.conns.push(Conn { log: Vec::new(), close: false, fail_next: false, fail_code: 0, notify: notify.clone(), server_closed: false, statements: BTreeMap::new() });
                 w.conns.len() - 1
             });
             drop(tokio::spawn(server(server_io, id, notify)));
@@ -780,7 +789,12 @@ async fn run_inner(sc: &C16Scenario) -> u64 {
                 }
             }
             Op::ServerFail(i) => {
-                w(|w| w.conns[i].fail_next = true);
+                // which error the server will answer with is part of the history
+                let code = choose_free(FAIL_CODES.len());
+                w(|w| {
+                    w.conns[i].fail_next = true;
+                    w.conns[i].fail_code = code;
+                });
             }
             Op::RetainNone => {
                 let r = pool.retain(|_, _| false);
